@@ -1,36 +1,23 @@
-/* C17 generator side: TYPEprint_descriptions creates type/<name>.h/.cc exactly for non-renamed enumerations
- * (selects get theirs from TYPEselect_print, unit selects_c); C12: AGGRprint_bound */
-#include "../c17_spec.h"
+/* C12: no generated file contains a number that is not a function of the schema text:
+ * AGGRprint_bound may print an integer only for a bound that IS an integer literal */
 int nondet_int(void);
-
-/* ---- stubs for externals of classes_type.c (name helpers return fixed short strings) ---- */
-static char s_name[8] = "nm";
-int g_is_aggr;
-Type g_ancestor;
-int g_files_created; const char *g_created[4];
-static FILE g_fobj;
-#include "stubs_auto.h"
-void h_print_descriptions(void)
+char *EXPRto_string(Expression e) { (void)e; static char s[4] = "f()"; char *r = malloc(4); r[0] = 'f'; r[1] = 0; return r; }
+static struct Scope_ t_kind; static struct TypeHead_ th; static struct TypeBody_ tb;
+void h_AGGRprint_bound(void)
 {
-    IN(int, in_kind); IN(int, in_renamed);
-    static struct Scope_ ts, headt, schema, supers; static struct TypeHead_ tt; static struct TypeBody_ tb; static FILES files; static struct Schema_ sch;
-    __CPROVER_assume(c17_in_domain(in_kind) && in_kind != select_);   /* selects: TYPEselect_print */
-    /* aggregate kinds are left out of this harness: TYPEget_RefTypeVarNm recurses over the element type and cbmc does not
-       finish within the time limit; that they create no files is not decided here */
-    __CPROVER_assume(!(in_kind == aggregate_ || in_kind == array_ || in_kind == bag_ || in_kind == set_ || in_kind == list_));
-    ts.u.type = &tt; tt.body = &tb; tt.head = in_renamed ? &headt : 0; tb.type = (enum type_enum)in_kind;
-    ts.symbol.name = s_name; headt.symbol.name = s_name; headt.superscope = &supers; supers.symbol.name = s_name; schema.symbol.name = s_name; schema.u.schema = &sch;
-    ts.superscope = &supers;
-    /* a rename has an ancestor (transitive head), a non-rename has none */
-    g_ancestor = in_renamed ? &headt : 0;
-    g_is_aggr = in_kind == aggregate_ || in_kind == array_ || in_kind == bag_ || in_kind == set_ || in_kind == list_;
-    if (g_is_aggr) { static struct Scope_ baset; static struct TypeHead_ bh; static struct TypeBody_ bb; baset.u.type = &bh; bh.body = &bb; bb.type = integer_; baset.symbol.name = s_name; baset.superscope = &supers; tb.base = &baset;
-                     static struct Expression_ lo, hi; tb.lower = 0; tb.upper = 0; }
-    files.inc = files.lib = files.init = files.create = files.unity.type.hdr = files.unity.type.impl = &g_fobj;
-    g_files_created = 0;
-    TYPEprint_descriptions(&ts, &files, &schema);
-    if (c17_has_own_files(in_kind, in_renamed != 0))
-        __CPROVER_assert(g_files_created == 2 && g_created[0] != g_created[1], "C17 the generator creates the header and the implementation file of a non-renamed enumeration exactly once");
-    else
-        __CPROVER_assert(g_files_created == 0, "C17 the generator creates no type/ files for simple types, aggregates and renamed types");
+    IN(int, in_kind); IN(int, in_resolved); IN(int, in_payload); IN(int, in_is_funcall_type);
+    static struct Expression_ bound, op2; static FILE fa, fb; static char nm[2] = "n";
+    /* expression kinds a resolved aggregate bound can have: integer literal, identifier/attribute/constant reference, function call, operator expression */
+    __CPROVER_assume(in_kind == integer_ || in_kind == identifier_ || in_kind == attribute_ || in_kind == funcall_ || in_kind == op_ || in_kind == entity_);
+    t_kind.u.type = &th; th.body = &tb; tb.type = (enum type_enum)in_kind;
+    bound.type = (in_kind == funcall_) ? Type_Funcall : &t_kind;
+    bound.symbol.resolved = in_resolved != 0; bound.symbol.name = nm;
+    bound.u.integer = in_payload;            /* for a literal: its value; otherwise whatever shares the union (pointer bits) */
+    bound.e.op2 = &op2; op2.symbol.name = nm;
+    g_bound_d_calls = g_funcall_calls = g_accessor_calls = 0;
+    __CPROVER_assume(Type_Funcall != &t_kind);
+    AGGRprint_bound(&fa, &fb, "v", "a", "c", &bound, 1);
+    if (g_bound_d_calls)
+        __CPROVER_assert(in_kind == integer_ && g_bound_d_value == in_payload, "C12 a number is printed as an aggregate bound only when the bound is an integer literal (no pointer bits or union garbage reach the generated code)");
+    __CPROVER_assert(g_bound_d_calls + g_funcall_calls + g_accessor_calls == 1, "C12 every aggregate bound is emitted exactly once, as a literal, an EXPRESS text or a member accessor");
 }
